@@ -526,7 +526,6 @@ func implementsProviderIface(fn *ssa.Function) bool {
 	return false
 }
 
-
 // checkAtomicSections: C20.atomic. For each function, no explicit release of a guard mutex lies on a path between
 // two accesses to a map it guards.
 func checkAtomicSections(r *Report, p *Prog, fns []*ssa.Function, guard map[string]guardEntry) {
